@@ -138,7 +138,7 @@ main:
 		return errors.Errorf("Connection not established!")
 	}
 
-	cc, err := socketace.NewClientConnection(conn, manager, false, ups.Address.Host)
+	cc, err := socketace.NewClientConnection(conn, manager, false, ups.Address.Hostname())
 	if err != nil {
 		return errors.Wrapf(err, "Could not open connection")
 	} else if mustSecure && !cc.Secure() {
